@@ -109,7 +109,7 @@ v2b!(c03_q_v2b_mia_indef0, MaybeIndefArray<u8>, 3, (), MaybeIndefArray::Indef(ve
 v2b!(c03_q_v2b_mia_def1_u32, MaybeIndefArray<u32>, 4, (a: u32), MaybeIndefArray::Def(vec![a]), |g| arr_is(g, true, &[a]), |n| n == 6);
 v2b!(c03_t_v2b_mia_indef2_bool, MaybeIndefArray<bool>, 5, (a: bool, b: bool), MaybeIndefArray::Indef(vec![a, b]), |g| arr_is(g, false, &[a, b]), |n| n == 4);
 v2b!(c03_q_v2b_mia_def2_bool, MaybeIndefArray<bool>, 5, (a: bool, b: bool), MaybeIndefArray::Def(vec![a, b]), |g| arr_is(g, true, &[a, b]), |n| n == 3);
-v2b!(c03_t_v2b_mia_indef1_u64, MaybeIndefArray<u64>, 4, (a: u64), MaybeIndefArray::Indef(vec![a]), |g| arr_is(g, false, &[a]), |n| n == 11);
+v2b!(c03_x_v2b_mia_indef1_u64, MaybeIndefArray<u64>, 4, (a: u64), MaybeIndefArray::Indef(vec![a]), |g| arr_is(g, false, &[a]), |n| n == 11);
 
 // bound: Set / NonEmptySet (always written with tag 258) with 0..=2 symbolic elements of bool/u8/u32/u64 (2 integer elements: thorough only)
 v2b!(c03_t_v2b_set0, Set<u8>, 3, (), Set::from(vec![]), |g| vec_is(g.deref(), &[]), |n| n == 4);
